@@ -47,7 +47,7 @@ def build_inputs(body):
             alts.append([("digits", base, sym, isref)])
         elif base in ("R", "Self") or (len(base) == 1 and base.isupper() and ty.startswith("&mut")):
             alts.append([("opaque", base, sym, isref)])
-        elif base in ("T", "U") and len(base) == 1:
+        elif (base in ("T", "U") and len(base) == 1) or base.startswith("impl ") and ("Integer" in base or "PrimInt" in base or "Unsigned" in base):
             # generic numeric parameter (e.g. powsign's exponent): an unsigned magnitude
             alts.append([("uint", "u64", "U" + sym, isref)])
         else:
